@@ -75,8 +75,7 @@ func (f *frame) callTarget(cc *ssa.CallCommon, fnVal *Value, args []Value, n *no
 			key = "dynamic." + typeName(fnVal.T)
 		}
 	}
-	f.callSeq[key]++
-	site := fmt.Sprintf("%s#%d", shortKey(key), f.callSeq[key])
+	site := fmt.Sprintf("%s#%d", shortKey(key), f.siteOrd(key, pos))
 	// in-body assertions before this call
 	if f.c != nil {
 		if len(f.c.CallAsserts[site]) > 0 {
@@ -87,7 +86,11 @@ func (f *frame) callTarget(cc *ssa.CallCommon, fnVal *Value, args []Value, n *no
 			sc.anchor = pos
 			sc.bindArgs(x.S.Contracts[key], callee, cc, args)
 			g := sc.evalBool(a.Expr)
-			x.oblige("assert@"+site, a.Tags, st.pc, g, pos, a.Text)
+			o := x.oblige("assert@"+site, a.Tags, st.pc, g, pos, a.Text)
+			o.Reveal = a.Reveal
+			o.By = a.By
+			// checked here, known from here on
+			x.assumeLabelled(st.pc, g, "asserted at "+site, a.Label)
 		}
 	}
 	if r, ok := f.intrinsic(key, cc, args, n, st, pos); ok {
@@ -1085,6 +1088,9 @@ func (f *frame) intrinsic(key string, cc *ssa.CallCommon, args []Value, n *node,
 			}
 		}
 		return Value{C: []*Term{x.newError(st, wraps, "wrap")}}, true
+	case "sort.Slice":
+		x.sortSlice(f, cc, args, n, st, pos)
+		return Value{}, true
 	case "errors.Join":
 		// errors.Join(errs...): nil when all nil; constant arity at all call sites
 		cnt, ok := constLen(args[0].C[2])
@@ -1279,4 +1285,137 @@ func asAxiom(h *Term, wraps []*Term) *Term {
 		rhs = append(rhs, And(Ne(w, Num(0)), App("AsT", SBool, w, t)))
 	}
 	return Forall([]*Term{t}, Implies(Gt(t, Num(0)), Eq(App("AsT", SBool, h, t), Or(rhs...))), App("AsT", SBool, h, t))
+}
+
+// sortSlice models sort.Slice(x, less) (assumed): the elements of x are
+// permuted in place, and afterwards no later element is less than an earlier
+// one. less must be a closure of the package under a pure contract whose
+// result is defined by one clause `ensures <result> == E`; E is evaluated with
+// the closure's variables bound at the call site.
+func (x *Exec) sortSlice(f *frame, cc *ssa.CallCommon, args []Value, n *node, st *State, pos token.Pos) {
+	mi, ok := cc.Args[0].(*ssa.MakeInterface)
+	if !ok {
+		fail("%s: sort.Slice on a value that is not a directly boxed slice", x.Key)
+	}
+	sv := f.get(mi.X, n, st)
+	slt, ok := sv.T.Underlying().(*types.Slice)
+	if !ok {
+		fail("%s: sort.Slice on a non-slice", x.Key)
+	}
+	comps := Flatten(slt.Elem())
+	if len(comps) != 1 || comps[0].Sort != SInt {
+		fail("%s: sort.Slice over composite elements (outside the verified subset)", x.Key)
+	}
+	cl, ok := x.closures[args[1].C[0]]
+	if !ok {
+		fail("%s: sort.Slice with a less function that is not a closure made in place", x.Key)
+	}
+	c := x.S.Contracts[FuncKey(cl.fn)]
+	if c == nil || !c.Pure {
+		fail("%s: sort.Slice needs a pure contract on %s", x.Key, FuncKey(cl.fn))
+	}
+	ref, off, ln := sv.C[0], sv.C[1], sv.C[2]
+	before := elemArr(st, slt.Elem(), comps[0], ref)
+	after := Fresh("sorted", SArr(SInt))
+	setElemArr(st, slt.Elem(), comps[0], ref, after)
+	// quantifiers over absolute positions k of the backing array, so that any read of it triggers them
+	hi := Add(off, ln)
+	in := func(k *Term) *Term { return And(Le(off, k), Lt(k, hi)) }
+	// (the part of the backing array outside the slice is left unconstrained: weaker than
+	// Go's guarantee, hence sound, and it spares the solvers a quantifier over every index)
+	// every element comes from the input
+	i, j := BVar("i?so", SInt), BVar("j?so", SInt)
+	x.assume(st.pc, Forall([]*Term{i}, Implies(in(i), Exists([]*Term{j}, And(in(j), Eq(Select(after, i), Select(before, j))))), Select(after, i)), "sort.Slice permutation")
+	// (the converse, that no element is lost, is not stated: the two directions feed each
+	// other's triggers without end, and no obligation here needs it)
+	// ordered: for i < j not less(j, i)
+	sig := cl.fn.Signature
+	names := resultNames(c, sig)
+	var def ast.Expr
+	for _, e := range c.Ensures {
+		if be, ok := e.Expr.(*ast.BinaryExpr); ok && be.Op == token.EQL {
+			if id, ok := be.X.(*ast.Ident); ok && (id.Name == names[0] || id.Name == "result") {
+				def = be.Y
+			}
+		}
+	}
+	if def == nil {
+		fail("%s: the contract of %s does not define its result by `ensures %s == E`", x.Key, c.Key, names[0])
+	}
+	sc := x.newSpecCtx(nil, nil, st, nil)
+	sc.body = false
+	sc.pkg = x.pkgFor(c, cl.fn, f)
+	it := types.Typ[types.Int]
+	pn := []string{cl.fn.Params[0].Name(), cl.fn.Params[1].Name()}
+	if len(c.Params) >= 2 {
+		pn = c.Params[:2]
+	}
+	// in adjacent form (one bound variable: a two-variable trigger fires for every pair of reads):
+	// no element is less than its predecessor, !less(k+1, k)
+	sc.vars[pn[0]] = Value{T: it, C: []*Term{Sub(Add(i, Num(1)), off)}}
+	sc.vars[pn[1]] = Value{T: it, C: []*Term{Sub(i, off)}}
+	for q, fv := range cl.fn.FreeVars {
+		sc.vars[fv.Name()] = cl.binds[q]
+	}
+	lessNext := sc.evalBool(def)
+	x.assume(st.pc, Forall([]*Term{i}, Implies(And(Le(off, i), Lt(Add(i, Num(1)), hi)), Not(lessNext)), Select(after, i)), "sort.Slice order")
+	x.note("assumed: sort.Slice permutes the slice in place into an order with !less(k+1, k) for neighbours (less taken from the contract of " + c.Key + ")")
+	_ = pos
+}
+
+// siteOrd numbers the sites of one kind (calls of one callee, sends/receives on
+// one channel field) within a function in source order, so that `at call f#2`
+// keeps meaning "the second call of f in the text" whatever the traversal order.
+func (f *frame) siteOrd(key string, pos token.Pos) int {
+	if f.sites == nil {
+		f.sites = map[string][]token.Pos{}
+		add := func(k string, p token.Pos) {
+			if k == "" || !p.IsValid() {
+				return
+			}
+			for _, q := range f.sites[k] {
+				if q == p {
+					return
+				}
+			}
+			f.sites[k] = append(f.sites[k], p)
+		}
+		for _, b := range f.fn.Blocks {
+			for _, in := range b.Instrs {
+				switch i := in.(type) {
+				case *ssa.Call:
+					add(CalleeKey(i.Common()), i.Pos())
+				case *ssa.Defer:
+					add(CalleeKey(i.Common()), i.Pos())
+				case *ssa.Go:
+					add(CalleeKey(i.Common()), i.Pos())
+				case *ssa.Send:
+					add("send "+lastField(chanField(i.Chan)), i.Pos())
+				case *ssa.UnOp:
+					if i.Op == token.ARROW {
+						add("recv "+lastField(chanField(i.X)), i.Pos())
+					}
+				}
+			}
+		}
+		for k := range f.sites {
+			ps := f.sites[k]
+			sort.Slice(ps, func(a, b int) bool { return ps[a] < ps[b] })
+		}
+	}
+	for i, p := range f.sites[key] {
+		if p == pos {
+			return i + 1
+		}
+	}
+	// a site the scan cannot key statically (call through a function value): traversal order
+	f.callSeq[key]++
+	return 1000 + f.callSeq[key]
+}
+
+func lastField(fld string) string {
+	if j := strings.LastIndex(fld, "."); j >= 0 {
+		return fld[j+1:]
+	}
+	return fld
 }
